@@ -206,7 +206,9 @@ def seeded(args):
             note = [l for l in out.splitlines() if l.startswith("NOTE")][:1]
             expect_violation = meta.get("detected") == "yes"
             ok = (rc == 1) if expect_violation else (rc == 0)
-            verdict = ("caught" if rc == 1 else "green") if rc in (0, 1) else "HARNESS-ERROR"
+            if "expected_exit" in meta:
+                ok = rc == meta["expected_exit"]
+            verdict = ("caught" if rc == 1 else "green") if rc in (0, 1) else "exit-2"
             rows.append((sid, "tests %s" % ("pass" if rc_t == 0 else "FAIL"), ("refactoring" if is_refactoring else "demo %s" % ("fails" if rc_d != 0 else "PASSES")), verdict, "as recorded" if ok else "UNEXPECTED", (first or note or [""])[0][:150]))
             print(rows[-1])
             sys.stdout.flush()
